@@ -126,7 +126,7 @@ def _rename_cond(c, pi):
     if k in ("fpred", "cpred"):
         return [k, c[1], [_rename_term(a, pi) for a in c[2]]]
     if k == "hastype":
-        return ["hastype", _rename_term(c[1], pi), c[2]]
+        return ["hastype", _rename_term(c[1], pi), c[2]] + c[3:]
     if k == "const":
         return c
     if k in ("and", "or"):
